@@ -87,6 +87,24 @@ EXPECT.append(("src = make(chan interface); dst = make(chan int64)\ngo func() { 
 EXPECT.append(("src = make(chan interface, 1); dst = make(chan int64, 1); src <- \"x\"; r = \"ok\"; try { dst <- src } catch e { r = \"E\" }; r", "s:45",
                "a relayed item without a conversion to the element type is an error"))
 
+# a for-in over one channel keeps receiving from that channel whatever else is received in its body
+_AB = "a = make(chan interface, 3); b = make(chan interface, 3)\nfor x in [1, 2, 3] { a <- x }; for x in [\"p\", \"q\", \"r\"] { b <- x }; close(a); close(b)\n"
+for _recv, _how in (("y = (<-b)", "a receive expression"), ("y = nil; y = <-b", "a receive statement"), ("y = nil; y, ok = <-b", "a two-value receive"),
+                    ("t = make(chan interface, 1); t <- b; y = (<-t)", "a relay t <- b")):
+    EXPECT.append((_AB + "r = []\nfor x in a { %s; r += [[x, y]] }\nr" % _recv, "[[i:1,s:70],[i:2,s:71],[i:3,s:72]]",
+                   "a for-in over one channel with %s from another channel in its body pairs the two streams (zip stage)" % _how))
+    EXPECT.append((_AB + "func zip() { r = []; for x in a { %s; r += [[x, y]] }; return r }\nzip()" % _recv, "[[i:1,s:70],[i:2,s:71],[i:3,s:72]]",
+                   "... also inside a function"))
+EXPECT.append((_AB + "r = []\nfor x in a { for y in b { r += [[x, y]] } }\nr", "[[i:1,s:70],[i:1,s:71],[i:1,s:72]]",
+               "a for-in over a channel nested in a for-in over another channel: each loop drains its own channel"))
+EXPECT.append(("a = make(chan interface); b = make(chan interface); out = make(chan interface)\n"
+               "go func() { for x in [1, 2, 3] { a <- x }; close(a) }()\ngo func() { for x in [10, 20, 30] { b <- x }; close(b) }()\n"
+               "go func() { for x in a { out <- x + (<-b) }; close(out) }()\nr = []; for s in out { r += s }; r", "[i:11,i:22,i:33]",
+               "a zip stage between two producers and a collector delivers the pairwise sums in order"))
+EXPECT.append(("work = make(chan interface, 3); stop = make(chan interface, 3)\nfor x in [10, 20, 30] { work <- x; stop <- false }; close(work)\n"
+               "r = []\nfor w in work { s, ok = <-stop; if s { break }; r += w }\nr", "[i:10,i:20,i:30]",
+               "a worker loop that polls a stop channel per item still receives every item of its work channel"))
+
 
 def run(tier, seed, replay=None):
     res = Result(PID, tier, seed)
